@@ -250,6 +250,8 @@ def handler_part(rep):
                               'add_to_queue/already_in_queue', 'branches.BranchCascade.build/validate']
     cfgs = handler_configs(rep.tier)
     acc = common.explore_configs(cfgs, make_handler_harness, split_depth=6, max_depth=3000)
+    for i, msg in common.pop_config_errors():
+        rep.error('whole-handler configuration %d inconclusive: %s' % (i, msg[:300]))
     by_sig = {}
     for i, c in enumerate(cfgs):
         results, st = acc[i]
